@@ -1418,7 +1418,8 @@ class Harness:
             if ok:
                 got += 1
                 self.good.setdefault(key, []).append(tuple(cats))
-                if got >= want:
+                # stop after `want` successes that cover at least 3 different argument-type tuples (when there are arguments)
+                if got >= want and (not req or len(set(self.good[key])) >= 3 or got >= 3 * want):
                     break
 
     # ------------------------------------------------------------ operators (both operands, augmented forms)
